@@ -502,7 +502,9 @@ class WsgiApplication(HttpBase):
                                                                  start_response)
 
         assert p_ctx.out_object is not None
-        g = next(iter(p_ctx.out_object))
+        # (a method with several return values can hand back fewer than that,
+        # none at all even. it's for the serializer to complain.)
+        g = next(iter(p_ctx.out_object), None)
         is_generator = len(p_ctx.out_object) == 1 and isgenerator(g)
 
         # if the out_object is a generator function, this hack makes the user
